@@ -174,6 +174,32 @@ Checks that were strengthened because a seeded change (or the triage of one) sho
   piece, the continuation line arriving next is lost) - trigger fields whose value starts on a continuation line (obs-fold), with
   every single cut; **C16-11** (101 only honoured when `Connection` is exactly `Upgrade`) - the Connection/Upgrade spellings
   clients really send (`keep-alive, Upgrade`, `Upgrade, HTTP2-Settings`, letter case, order, none at all).
+* **Round 12** (19 more, the sub-agents asked to prefer multi-step histories; 10 not caught at first, 1 neutralised by a repair):
+  **C02-12** (the "continuation that looks like a field" heuristic extended from HTTP/1.1 to HTTP/1.0 responses) - C02 had no folded
+  response headers at all; it now folds them where the unchanged parser's rule joins them (continuations without a colon under
+  HTTP/1.1, any continuation - URLs, times, host:port - under HTTP/1.0); **C03-12** (the carried-over line buffer sized with the
+  pending header's length, stale heap bytes reported as part of the next field) was *found* at once but the check ran for more than
+  half an hour: almost every case differed and each difference was minimised by re-running the case once per cut - minimisation now
+  has a budget per process and a process stops refining after 40 differing cases; **C04-12** (a full list drops leading NULL slots
+  before growing, so list positions shift under the response cursor) - connections of 17..26 exchanges with the three ways of
+  disposing of finished transactions; **C06-12** (the transaction-level RESPONSE_BODY_DATA hook destroyed with an interim 100) -
+  transaction-level body callbacks used to be touched and counted only: what they are handed is now accounted like the
+  configuration-level callbacks' data and compared with it when the side completes, and a third registration mode attaches the
+  response body hook while the request is being looked at; **C08-12** (`htp_connp_tx_freed` rewrites the index of every live
+  transaction) - the call was not metered at all, and no family answered deeply pipelined requests one call at a time: exchange
+  families got that delivery and a streaming-mode disposal (`tx_auto_destroy` + `htp_connp_tx_freed`); **C11-12** (a chunked
+  upload that also carries Content-Length and `Expect`, answered early with a 4xx, falls out of the chunked states) - T-E + C-L
+  requests with `Expect: 100-continue` answered at every offset of the body; **C13-12** (requests inside an accepted tunnel inherit
+  the tunnel's authority) - two thirds of `en_c13`'s end-to-end targets now arrive after an earlier exchange or inside a CONNECT
+  tunnel; **C15-12** (`htp_config_copy` loses the REQUEST_LINE hook, and with it the query-string parser) - `en_c15`'s end-to-end
+  runs carry the string as query string too and use connections created from a copied configuration; **C17-12**
+  (`htp_table_get_c` compares against the key's buffer size) - table keys and half of all test strings now have spare capacity
+  holding stale bytes; **C19-12** (`htp_config_copy` clears a hook of the configuration it copies) - two C19 profiles give every
+  transaction a private `htp_config_copy()` of the shared configuration, made while the other connections parse; **C16-12** (an
+  interim 100 no longer rewinds `response_progress`, so a waiting CONNECT takes it for the answer) - interim 100 responses in front
+  of the CONNECT answer; that workload fired on the *unchanged* tree (same weakness, narrower window), which was repaired
+  (`d4d9a37`, section 6.1), and the repair neutralises the seeded change. C12-12 (custom best-fit table assumed sorted) was caught
+  only because the table had been added to `en_c12`'s lattice an hour earlier.
 * **C08-1/2, C19-1/2** were the acceptance tests of the two checks built last; C19-1 (a process-wide decompression buffer) is
   invisible to ThreadSanitizer because zlib does the writes, and is caught by the solo-vs-shared dump comparison under baton
   interleavings; C19-2 (self-organising best-fit map) is caught by the deep configuration hash and by TSan.
